@@ -34,41 +34,76 @@ Qed.
 Section Proofs.
   Variables D P : Type.
   Variable empty : D.
-  Variable rd : nat -> list D -> P.
+  Variable rd : nat -> list D -> option P.
   Variable wr : nat -> P -> list D.
   Variable g : graph.
+  Variable sh : shape.
 
   Notation nviews := (nviews g).
   Notation decl := (decl g).
   Notation own := (own g).
   Notation state := (state D P).
   Notation own_data := (own_data D P g).
-  Notation getf := (getf D P empty rd g).
-  Notation get := (get D P empty rd g).
-  Notation run := (run D P empty rd g).
-  Notation save_step := (save_step D P empty rd wr g).
-  Notation save := (save D P empty rd wr g).
+  Notation look_all := (look_all D P).
+  Notation getf := (getf D P empty rd g sh).
+  Notation get := (get D P empty rd g sh).
+  Notation run := (run D P empty rd g sh).
+  Notation save_step := (save_step D P empty rd wr g sh).
+  Notation save_todo := (save_todo D P g sh).
+  Notation save := (save D P empty rd wr g sh).
   Notation denote := (denote D P rd g).
   Notation fresh := (fresh D P).
   Notation owned := (owned g).
   Notation clear_lumps := (clear_lumps D P empty).
   Notation set_cache := (set_cache D P).
+  Notation pre_clear := (pre_clear D P empty g sh).
+  Notation parse_input := (parse_input D P g).
 
-  (** Saving when nothing is cached changes nothing (no condition on the graph needed). *)
-  Lemma save_steps_fresh : forall l (s : state), fresh s -> fold_left save_step l s = s.
+  (** Saving when nothing is cached changes nothing (no condition on the graph or the shape needed). *)
+  Lemma save_steps_fresh : forall l (s : state), fresh s -> fold_left save_step l (true, s) = (true, s).
   Proof.
     induction l as [|v r IH]; intros s Hf; cbn [fold_left]; [reflexivity|].
-    unfold save_step at 2. rewrite (Hf v). apply IH, Hf.
+    unfold save_step at 2. cbn [fst snd]. rewrite (Hf v). apply IH, Hf.
   Qed.
 
-  Lemma save_fresh_id : forall s : state, fresh s -> save s = s.
+  Lemma save_fresh_id : forall s : state, fresh s -> save s = (true, s).
   Proof. intros s Hf. unfold save, LazyLumps.save. now apply save_steps_fresh. Qed.
 
   Lemma own_overflow : forall v, nviews <= v -> own v = [].
   Proof. intros v H. unfold LazyLumps.own, LazyLumps.decl. rewrite nth_overflow; [reflexivity | exact H]. Qed.
 
+  Lemma parse_input_eq : forall (s s1 : state) v, own_data s1 v = own_data s v -> parse_input s s1 v = own_data s v.
+  Proof.
+    intros s s1 v H. unfold LazyLumps.parse_input, LazyLumps.own_data in *. destruct (own v) as [|m ex]; [reflexivity|].
+    cbn [map] in *. injection H as _ H. now rewrite H.
+  Qed.
+
+  (** A failed look of a view whose reader looks at no other view leaves the object exactly as it was: nothing
+      cached, nothing cleared (needs only the statement order of __get__, not the graph conditions). *)
+  Lemma failed_get_leaf_identity : sh_early_main sh = false -> sh_early_extra sh = false ->
+    forall f v (s : state), v_rdeps (decl v) = [] -> fst (getf f v s) = false -> snd (getf f v s) = s.
+  Proof.
+    intros E1 E2 f v s Hd. destruct f as [|f]; cbn [getf LazyLumps.getf]; [reflexivity|].
+    destruct (v <? nviews); [|reflexivity]. destruct (cache s v); [reflexivity|].
+    rewrite Hd. cbn [LazyLumps.look_all fst snd]. unfold LazyLumps.pre_clear. rewrite E1, E2. cbn [orb].
+    destruct (rd v (parse_input s s v)); cbn [fst snd]; [discriminate | reflexivity].
+  Qed.
+
   Section Consistent.
     Hypothesis OC : order_consistent g = true.
+    Hypothesis SH : shape_ok sh = true.
+
+    Lemma sh_flags : sh_early_main sh = false /\ sh_early_extra sh = false /\ sh_snapshot sh = false.
+    Proof.
+      pose proof SH as H. unfold shape_ok in H. apply andb_prop in H. destruct H as [H H3].
+      apply andb_prop in H. destruct H as [H1 H2]. apply negb_true_iff in H1, H2, H3. auto.
+    Qed.
+
+    Lemma pre_clear_id : forall v (s : state), pre_clear v s = s.
+    Proof. intros v s. destruct sh_flags as (E1 & E2 & _). unfold LazyLumps.pre_clear. now rewrite E1, E2. Qed.
+
+    Lemma save_todo_std : forall s : state, save_todo s = seq 0 nviews.
+    Proof. intros s. destruct sh_flags as (_ & _ & E3). unfold LazyLumps.save_todo. now rewrite E3. Qed.
 
     Lemma oc_at : forall i, i < nviews ->
       deps_later g i = true /\ owns_stored g i = true /\ own_nodup g i = true /\ own_disjoint g i = true.
@@ -110,88 +145,137 @@ Section Proofs.
       Variable R : nat -> Prop.     (* any set of views closed under the dependencies *)
       Hypothesis Rclosed : forall v d, v < nviews -> R v -> In d (v_rdeps (decl v) ++ v_wdeps (decl v)) -> R d.
 
-      Definition pv (v : nat) : P := rd v (own_data s0 v).
+      (** What the reader of [v] makes of the file's data ([None]: it raises). *)
+      Definition pv (v : nat) : option P := rd v (own_data s0 v).
+
+      (** A look at [v] succeeds: its reader and the readers of everything it looks at accept the file's data. *)
+      Inductive good : nat -> Prop :=
+        good_i : forall v, pv v <> None -> (forall d, In d (v_rdeps (decl v)) -> good d) -> good v.
 
       (** Views below [lo] have been saved, views from [hi] on are either untouched or cached. *)
       Definition Inv (lo hi : nat) (s : state) : Prop :=
         (forall v, nviews <= v -> cache s v = None) /\
         (forall v, v < lo -> cache s v = None /\
-            (own_data s v = own_data s0 v \/ (R v /\ own_data s v = wr v (pv v)))) /\
+            (own_data s v = own_data s0 v \/ (R v /\ exists p, pv v = Some p /\ own_data s v = wr v p))) /\
         (forall v, hi <= v -> v < nviews ->
-            (cache s v = None /\ own_data s v = own_data s0 v) \/ (R v /\ cache s v = Some (pv v))) /\
+            (cache s v = None /\ own_data s v = own_data s0 v) \/ (R v /\ good v /\ cache s v = pv v)) /\
         (forall l, ~ owned l -> raw s l = raw s0 l).
 
-      Definition get_post (lo hi v : nat) (s s' : state) : Prop :=
-        Inv lo hi s' /\ (v < nviews -> cache s' v = Some (pv v)) /\
-        (forall w, w < v -> cache s' w = cache s w /\ own_data s' w = own_data s w).
+      Definition get_post (lo hi v : nat) (s : state) (r : bool * state) : Prop :=
+        Inv lo hi (snd r) /\
+        (v < nviews -> fst r = true -> cache (snd r) v = pv v /\ good v) /\
+        (v < nviews -> fst r = false -> exists e, v <= e /\ e < nviews /\ pv e = None) /\
+        (v < nviews -> good v -> fst r = true) /\
+        (forall w, w < v \/ (w = v /\ fst r = false) -> cache (snd r) w = cache s w /\ own_data (snd r) w = own_data s w).
 
-      Lemma fold_get_spec : forall f lo hi v,
-        (forall d s, Inv lo hi s -> hi <= d -> R d -> nviews <= f + d -> get_post lo hi d s (getf f d s)) ->
-        hi <= v ->
-        forall ds s, (forall d, In d ds -> v < d /\ R d /\ nviews <= f + d) -> Inv lo hi s ->
-        let s1 := fold_left (fun s d => getf f d s) ds s in
-        Inv lo hi s1 /\ (forall w, w <= v -> cache s1 w = cache s w /\ own_data s1 w = own_data s w).
+      Lemma good_pv : forall v, good v -> pv v <> None.
+      Proof. intros v H. now inversion H. Qed.
+
+      Lemma look_all_spec : forall (look : nat -> state -> bool * state) lo hi v ds,
+        (forall d s, In d ds -> Inv lo hi s -> get_post lo hi d s (look d s)) ->
+        (forall d, In d ds -> v < d /\ d < nviews) ->
+        forall s, Inv lo hi s ->
+        let r := look_all look ds s in
+        Inv lo hi (snd r) /\
+        (forall w, w <= v -> cache (snd r) w = cache s w /\ own_data (snd r) w = own_data s w) /\
+        (fst r = true -> forall d, In d ds -> good d) /\
+        (fst r = false -> exists e, v < e /\ e < nviews /\ pv e = None) /\
+        ((forall d, In d ds -> good d) -> fst r = true).
       Proof.
-        intros f lo hi v IH Hhi ds. induction ds as [|d r IHr]; intros s Hds HI; cbn [fold_left].
-        - split; [exact HI | intros; split; reflexivity].
-        - destruct (Hds d (or_introl eq_refl)) as (Hvd & HRd & Hfuel).
-          destruct (IH d s HI ltac:(lia) HRd Hfuel) as (HI1 & _ & Hfr1).
-          destruct (IHr (getf f d s) (fun d' Hd' => Hds d' (or_intror Hd')) HI1) as (HI2 & Hfr2).
-          split; [exact HI2|]. intros w Hw. destruct (Hfr2 w Hw) as [A B]. destruct (Hfr1 w ltac:(lia)) as [A' B'].
-          split; congruence.
+        intros look lo hi v ds. induction ds as [|d r0 IH]; intros Hlook Hds s HI; cbn [LazyLumps.look_all].
+        - cbn [fst snd]. split; [exact HI|]. split; [intros; split; reflexivity|].
+          split; [intros _ d []|]. split; [discriminate | reflexivity].
+        - destruct (Hds d (or_introl eq_refl)) as [Hvd Hdn].
+          destruct (Hlook d s (or_introl eq_refl) HI) as (HI1 & Hok & Hfail & Hgood & Hfr).
+          destruct (look d s) as [b s1] eqn:E. cbn [fst snd] in *. destruct b.
+          + destruct (IH (fun d' s' Hd' => Hlook d' s' (or_intror Hd')) (fun d' Hd' => Hds d' (or_intror Hd')) s1 HI1)
+              as (HI2 & Hfr2 & Hok2 & Hfail2 & Hgood2).
+            split; [exact HI2|]. split; [|split; [|split]].
+            * intros w Hw. destruct (Hfr2 w Hw) as [A B]. assert (Hwd : w < d) by lia. destruct (Hfr w (or_introl Hwd)) as [A' B']. split; congruence.
+            * intros Ht d' [<-|Hd']; [exact (proj2 (Hok Hdn eq_refl)) | exact (Hok2 Ht d' Hd')].
+            * exact Hfail2.
+            * intros Hg. apply Hgood2. intros d' Hd'. apply Hg. now right.
+          + cbn [fst snd]. split; [exact HI1|]. split; [|split; [|split]].
+            * intros w Hw. apply Hfr. left. lia.
+            * discriminate.
+            * intros _. destruct (Hfail Hdn eq_refl) as (e & He1 & He2 & He3). exists e. split; [lia | split; [exact He2 | exact He3]].
+            * intros Hg. apply (Hgood Hdn). apply Hg. now left.
       Qed.
 
       Lemma get_spec : forall f lo hi v s, lo <= hi -> Inv lo hi s -> hi <= v -> R v -> nviews <= f + v ->
         get_post lo hi v s (getf f v s).
       Proof.
         induction f as [|f IH]; intros lo hi v s Hlh HI Hhi HR Hfuel.
-        - cbn [getf LazyLumps.getf]. split; [exact HI|]. split; [intros; lia | intros; split; reflexivity].
+        - cbn [getf LazyLumps.getf fst snd]. unfold get_post. cbn [fst snd].
+          split; [exact HI|]. split; [intros; lia|]. split; [intros; lia|]. split; [intros; lia|]. intros; split; reflexivity.
         - cbn [getf LazyLumps.getf]. destruct (v <? nviews) eqn:Ev.
-          2:{ apply Nat.ltb_ge in Ev. split; [exact HI|]. split; [intros; lia | intros; split; reflexivity]. }
+          2:{ apply Nat.ltb_ge in Ev. unfold get_post. cbn [fst snd]. split; [exact HI|]. split; [intros; lia|]. split; [intros; lia|]. split; [intros; lia|]. intros; split; reflexivity. }
           apply Nat.ltb_lt in Ev.
           pose proof HI as HIc. destruct HI as (Ha & Hb & Hc & Hd).
           destruct (cache s v) as [p|] eqn:Ec.
           + (* already cached *)
-            split; [exact HIc|]. split; [|intros; split; reflexivity].
-            intros _. destruct (Hc v Hhi Ev) as [[Hn _]|[_ Hs]]; congruence.
+            unfold get_post. cbn [fst snd]. split; [exact HIc|].
+            destruct (Hc v Hhi Ev) as [[Hn _]|(_ & Hg & Hs)]; [congruence|].
+            split; [intros _ _; split; [congruence | exact Hg]|]. split; [discriminate|]. split; [reflexivity|].
+            intros; split; reflexivity.
           + (* parse *)
             assert (Hown0 : own_data s v = own_data s0 v).
-            { destruct (Hc v Hhi Ev) as [[_ Ho]|[_ Hs]]; [exact Ho | congruence]. }
-            pose proof (fold_get_spec f lo hi v (fun d s' HI' Hd' HR' Hf' => IH lo hi d s' Hlh HI' Hd' HR' Hf') Hhi
-                          (v_rdeps (decl v)) s) as Hfold.
-            assert (Hds : forall d, In d (v_rdeps (decl v)) -> v < d /\ R d /\ nviews <= f + d).
-            { intros d Hd'. assert (Hin : In d (v_rdeps (decl v) ++ v_wdeps (decl v))) by (apply in_or_app; auto).
-              destruct (deps_gt v d Ev Hin). split; [lia|]. split; [exact (Rclosed v d Ev HR Hin) | lia]. }
-            specialize (Hfold Hds HIc). cbv zeta in Hfold.
-            set (s1 := fold_left (fun s d => getf f d s) (v_rdeps (decl v)) s) in *.
-            destruct Hfold as ((Ha1 & Hb1 & Hc1 & Hd1) & Hfr).
+            { destruct (Hc v Hhi Ev) as [[_ Ho]|(_ & Hg & Hs)]; [exact Ho|]. apply good_pv in Hg. congruence. }
+            rewrite pre_clear_id.
+            assert (Hds : forall d, In d (v_rdeps (decl v)) -> v < d /\ d < nviews).
+            { intros d Hd'. apply (deps_gt v d Ev). apply in_or_app; auto. }
+            assert (Hlook : forall d s', In d (v_rdeps (decl v)) -> Inv lo hi s' -> get_post lo hi d s' (getf f d s')).
+            { intros d s' Hd' HI'. assert (Hin : In d (v_rdeps (decl v) ++ v_wdeps (decl v))) by (apply in_or_app; auto).
+              destruct (deps_gt v d Ev Hin). apply IH; [exact Hlh | exact HI' | lia | exact (Rclosed v d Ev HR Hin) | lia]. }
+            pose proof (look_all_spec (getf f) lo hi v (v_rdeps (decl v)) Hlook Hds s HIc) as Hfold. cbv zeta in Hfold.
+            destruct (look_all (getf f) (v_rdeps (decl v)) s) as [b s1] eqn:El. cbn [fst snd] in *.
+            destruct Hfold as ((Ha1 & Hb1 & Hc1 & Hd1) & Hfr & Hok & Hfail & Hgood).
             destruct (Hfr v (le_n v)) as [Hcv Hov].
-            assert (Hp : rd v (own_data s1 v) = pv v) by (unfold pv; congruence).
-            rewrite Hp.
-            split; [|split].
-            * (* invariant *)
-              split; [|split; [|split]].
-              -- intros v' Hv'. cbn [cache clear_lumps LazyLumps.clear_lumps set_cache LazyLumps.set_cache]. unfold upd.
-                 destruct (Nat.eqb v' v) eqn:E; [apply Nat.eqb_eq in E; lia | auto].
-              -- intros v' Hv'. destruct (Hb1 v' Hv') as [A B]. assert (Hne : v' <> v) by lia. split.
-                 ++ cbn [cache clear_lumps LazyLumps.clear_lumps set_cache LazyLumps.set_cache]. unfold upd.
-                    destruct (Nat.eqb v' v) eqn:E; [apply Nat.eqb_eq in E; lia | exact A].
-                 ++ rewrite (own_data_clear_other _ v v' Ev Hne). exact B.
-              -- intros v' Hv' Hv'n. destruct (Nat.eq_dec v' v) as [->|Hne].
-                 ++ right. split; [exact HR|].
-                    cbn [cache clear_lumps LazyLumps.clear_lumps set_cache LazyLumps.set_cache]. unfold upd. now rewrite Nat.eqb_refl.
-                 ++ rewrite (own_data_clear_other _ v v' Ev Hne).
-                    cbn [cache clear_lumps LazyLumps.clear_lumps set_cache LazyLumps.set_cache]. unfold upd.
-                    apply Nat.eqb_neq in Hne. rewrite Hne. exact (Hc1 v' Hv' Hv'n).
-              -- intros l Hl. cbn [raw clear_lumps LazyLumps.clear_lumps set_cache LazyLumps.set_cache].
-                 destruct (mem l (own v)) eqn:E.
-                 ++ exfalso. apply Hl. exists v. split; [exact Ev | now apply mem_In].
-                 ++ apply Hd1, Hl.
-            * intros _. cbn [cache clear_lumps LazyLumps.clear_lumps set_cache LazyLumps.set_cache]. unfold upd. now rewrite Nat.eqb_refl.
-            * intros w Hw. destruct (Hfr w ltac:(lia)) as [A B]. split.
-              -- cbn [cache clear_lumps LazyLumps.clear_lumps set_cache LazyLumps.set_cache]. unfold upd.
-                 destruct (Nat.eqb w v) eqn:E; [apply Nat.eqb_eq in E; lia | exact A].
-              -- rewrite (own_data_clear_other _ v w Ev ltac:(lia)). exact B.
+            destruct b.
+            * assert (Hp : rd v (parse_input s s1 v) = pv v).
+              { rewrite (parse_input_eq s s1 v Hov). unfold pv. now rewrite Hown0. }
+              rewrite Hp. destruct (pv v) as [p|] eqn:Epv.
+              -- (* the reader succeeds *)
+                 unfold get_post. cbn [fst snd]. split; [|split; [|split; [|split]]].
+                 ++ split; [|split; [|split]].
+                    ** intros v' Hv'. cbn [cache clear_lumps LazyLumps.clear_lumps set_cache LazyLumps.set_cache]. unfold upd.
+                       destruct (Nat.eqb v' v) eqn:E; [apply Nat.eqb_eq in E; lia | auto].
+                    ** intros v' Hv'. destruct (Hb1 v' Hv') as [A B]. assert (Hne : v' <> v) by lia. split.
+                       --- cbn [cache clear_lumps LazyLumps.clear_lumps set_cache LazyLumps.set_cache]. unfold upd.
+                           destruct (Nat.eqb v' v) eqn:E; [apply Nat.eqb_eq in E; lia | exact A].
+                       --- rewrite (own_data_clear_other _ v v' Ev Hne). exact B.
+                    ** intros v' Hv' Hv'n. destruct (Nat.eq_dec v' v) as [->|Hne].
+                       --- right. split; [exact HR|]. split.
+                           +++ constructor; [congruence | exact (Hok eq_refl)].
+                           +++ cbn [cache clear_lumps LazyLumps.clear_lumps set_cache LazyLumps.set_cache]. unfold upd.
+                               rewrite Nat.eqb_refl. now rewrite Epv.
+                       --- rewrite (own_data_clear_other _ v v' Ev Hne).
+                           cbn [cache clear_lumps LazyLumps.clear_lumps set_cache LazyLumps.set_cache]. unfold upd.
+                           apply Nat.eqb_neq in Hne. rewrite Hne. exact (Hc1 v' Hv' Hv'n).
+                    ** intros l Hl. cbn [raw clear_lumps LazyLumps.clear_lumps set_cache LazyLumps.set_cache].
+                       destruct (mem l (own v)) eqn:E.
+                       --- exfalso. apply Hl. exists v. split; [exact Ev | now apply mem_In].
+                       --- apply Hd1, Hl.
+                 ++ intros _ _. split.
+                    ** cbn [cache clear_lumps LazyLumps.clear_lumps set_cache LazyLumps.set_cache]. unfold upd. now rewrite Nat.eqb_refl.
+                    ** constructor; [congruence | exact (Hok eq_refl)].
+                 ++ discriminate.
+                 ++ reflexivity.
+                 ++ intros w [Hw|[_ Hw]]; [|discriminate]. destruct (Hfr w ltac:(lia)) as [A B]. split.
+                    ** cbn [cache clear_lumps LazyLumps.clear_lumps set_cache LazyLumps.set_cache]. unfold upd.
+                       destruct (Nat.eqb w v) eqn:E; [apply Nat.eqb_eq in E; lia | exact A].
+                    ** rewrite (own_data_clear_other _ v w Ev ltac:(lia)). exact B.
+              -- (* the reader raises: nothing cached, nothing cleared *)
+                 unfold get_post. cbn [fst snd]. split; [exact (conj Ha1 (conj Hb1 (conj Hc1 Hd1)))|].
+                 split; [discriminate|]. split; [intros _ _; exists v; split; [lia | split; [exact Ev | exact Epv]]|].
+                 split; [intros _ Hg; apply good_pv in Hg; congruence|].
+                 intros w Hw. apply Hfr. lia.
+            * (* a dependency's reader raised *)
+              unfold get_post. cbn [fst snd]. split; [exact (conj Ha1 (conj Hb1 (conj Hc1 Hd1)))|].
+              split; [discriminate|]. split; [|split].
+              -- intros _ _. destruct (Hfail eq_refl) as (e & He1 & He2 & He3). exists e. split; [lia | split; [exact He2 | exact He3]].
+              -- intros _ Hg. apply Hgood. now inversion Hg.
+              -- intros w Hw. apply Hfr. lia.
       Qed.
 
       Lemma inv_fresh : fresh s0 -> Inv 0 0 s0.
@@ -204,22 +288,15 @@ Section Proofs.
         destruct (get_spec nviews 0 0 v s (le_n 0) HI ltac:(lia) (HR v (or_introl eq_refl)) ltac:(lia)) as [H _]. exact H.
       Qed.
 
-      (** The fuel of [get] is never exhausted: after looking at a view it is in the cache. *)
-      Lemma get_cached : forall v s, Inv 0 0 s -> R v -> v < nviews -> cache (get v s) v = Some (pv v).
-      Proof.
-        intros v s HI HR Hv.
-        destruct (get_spec nviews 0 0 v s (le_n 0) HI ltac:(lia) HR ltac:(lia)) as (_ & H & _). auto.
-      Qed.
-
       Lemma inv_denote : forall s v, Inv 0 0 s -> v < nviews -> denote s v = pv v.
       Proof.
         intros s v (_ & _ & Hc & _) Hv. unfold LazyLumps.denote.
-        destruct (Hc v ltac:(lia) Hv) as [[Hn Ho]|[_ Hs]].
+        destruct (Hc v ltac:(lia) Hv) as [[Hn Ho]|(_ & Hg & Hs)].
         - rewrite Hn. unfold pv. now rewrite Ho.
-        - now rewrite Hs.
+        - apply good_pv in Hg. rewrite Hs. destruct (pv v); [reflexivity | contradiction].
       Qed.
 
-      Hypothesis wr_len : forall v, v < nviews -> length (wr v (pv v)) = length (own v).
+      Hypothesis wr_len : forall v p, v < nviews -> pv v = Some p -> length (wr v p) = length (own v).
 
       Lemma store_sel_other : forall ws ls ds r l, ~ In l ls -> store_sel D ws ls ds r l = r l.
       Proof.
@@ -239,18 +316,27 @@ Section Proofs.
         - apply IH; [exact Hnd' | lia | intros; apply Hws; now right].
       Qed.
 
-      Lemma save_step_inv : forall k s, k < nviews -> Inv k k s -> Inv (S k) (S k) (save_step s k).
+      (** Every view a writer looks at can be parsed whenever the writer's own view could. *)
+      Definition WG : Prop := forall v d, v < nviews -> good v -> In d (v_wdeps (decl v)) -> good d.
+
+      Lemma save_step_inv : forall k acc, k < nviews -> (fst acc = true -> Inv k k (snd acc)) ->
+        let r := save_step acc k in
+        (fst r = true -> Inv (S k) (S k) (snd r)) /\ (fst acc = true -> WG -> fst r = true).
       Proof.
-        intros k s Hk (Ha & Hb & Hc & Hd). unfold save_step, LazyLumps.save_step.
+        intros k [b s] Hk HI. cbn [fst snd] in HI. unfold save_step, LazyLumps.save_step. cbn [fst snd].
+        destruct b; [|cbn [fst snd]; split; intros; discriminate].
+        destruct (HI eq_refl) as (Ha & Hb & Hc & Hd).
         destruct (cache s k) as [p|] eqn:Ec.
         2:{ (* not looked at *)
+          cbn [fst snd]. split; [intros _|reflexivity].
           split; [exact Ha|]. split; [|split; [|exact Hd]].
           - intros v Hv. destruct (Nat.eq_dec v k) as [->|Hne]; [|apply Hb; lia].
-            split; [exact Ec|]. left. destruct (Hc k (le_n k) Hk) as [[_ Ho]|[_ Hs]]; [exact Ho | congruence].
+            split; [exact Ec|]. left. destruct (Hc k (le_n k) Hk) as [[_ Ho]|(_ & Hg & Hs)]; [exact Ho|].
+            apply good_pv in Hg. congruence.
           - intros v Hv Hvn. apply Hc; lia. }
-        assert (HRk : R k /\ p = pv k).
-        { destruct (Hc k (le_n k) Hk) as [[Hn _]|[HR Hs]]; [congruence|]. split; [exact HR | congruence]. }
-        destruct HRk as [HRk ->].
+        assert (HRk : R k /\ good k /\ pv k = Some p).
+        { destruct (Hc k (le_n k) Hk) as [[Hn _]|(HR & Hg & Hs)]; [congruence|]. split; [exact HR | split; [exact Hg | congruence]]. }
+        destruct HRk as (HRk & Hgk & Hpk).
         set (s1 := set_cache k None s).
         assert (HI1 : Inv k (S k) s1).
         { split; [|split; [|split; [|exact Hd]]].
@@ -260,27 +346,24 @@ Section Proofs.
             unfold s1, LazyLumps.set_cache, upd. cbn [cache]. destruct (Nat.eqb v k); [reflexivity | exact A].
           - intros v Hv Hvn. unfold s1, LazyLumps.set_cache, upd. cbn [cache].
             destruct (Nat.eqb v k) eqn:E; [apply Nat.eqb_eq in E; lia|]. apply (Hc v ltac:(lia) Hvn). }
-        assert (Hfold' : forall ds s, (forall d, In d ds -> k < d /\ R d) -> Inv k (S k) s ->
-                  let s2 := fold_left (fun s d => get d s) ds s in
-                  Inv k (S k) s2 /\ (forall w, w <= k -> cache s2 w = cache s w /\ own_data s2 w = own_data s w)).
-        { intros ds. induction ds as [|d r IHr]; intros s' Hds HI'; cbn [fold_left].
-          - split; [exact HI' | intros; split; reflexivity].
-          - destruct (Hds d (or_introl eq_refl)) as (Hvd & HRd).
-            destruct (get_spec nviews k (S k) d s' (le_S _ _ (le_n k)) HI' ltac:(lia) HRd ltac:(lia)) as (HIa & _ & Hfra).
-            destruct (IHr (get d s') (fun d' Hd' => Hds d' (or_intror Hd')) HIa) as (HIb & Hfrb).
-            split; [exact HIb|]. intros w Hw. destruct (Hfrb w Hw) as [A B]. destruct (Hfra w ltac:(lia)) as [A' B'].
-            unfold LazyLumps.get in *. split; congruence. }
-        assert (Hwd : forall d, In d (v_wdeps (decl k)) -> k < d /\ R d).
-        { intros d Hd'. assert (Hin : In d (v_rdeps (decl k) ++ v_wdeps (decl k))) by (apply in_or_app; auto).
-          destruct (deps_gt k d Hk Hin). split; [lia | exact (Rclosed k d Hk HRk Hin)]. }
-        destruct (Hfold' (v_wdeps (decl k)) s1 Hwd HI1) as ((Ha2 & Hb2 & Hc2 & Hd2) & Hfr2). cbv zeta in *.
-        set (s2 := fold_left (fun s d => get d s) (v_wdeps (decl k)) s1) in *.
+        assert (Hwd : forall d, In d (v_wdeps (decl k)) -> k < d /\ d < nviews).
+        { intros d Hd'. apply (deps_gt k d Hk). apply in_or_app; auto. }
+        assert (Hlook : forall d s', In d (v_wdeps (decl k)) -> Inv k (S k) s' -> get_post k (S k) d s' (get d s')).
+        { intros d s' Hd' HI'. assert (Hin : In d (v_rdeps (decl k) ++ v_wdeps (decl k))) by (apply in_or_app; auto).
+          destruct (deps_gt k d Hk Hin). unfold LazyLumps.get.
+          apply get_spec; [lia | exact HI' | lia | exact (Rclosed k d Hk HRk Hin) | lia]. }
+        pose proof (look_all_spec get k (S k) k (v_wdeps (decl k)) Hlook Hwd s1 HI1) as Hfold. cbv zeta in Hfold.
+        destruct (look_all get (v_wdeps (decl k)) s1) as [b2 s2] eqn:El. cbn [fst snd] in *.
+        destruct Hfold as ((Ha2 & Hb2 & Hc2 & Hd2) & Hfr2 & _ & _ & Hgood2).
+        destruct b2; cbn [fst snd].
+        2:{ split; [discriminate|]. intros _ Hwg. apply Hgood2. intros d Hd'. exact (Hwg k d Hk Hgk Hd'). }
+        split; [intros _|reflexivity].
         assert (Hself : mem k (v_wdeps (decl k)) = false).
         { apply mem_false. intros Hin. destruct (Hwd k Hin). lia. }
         rewrite Hself.
         destruct (oc_at k Hk) as (_ & Hst & Hnd & _).
         apply nodupb_NoDup in Hnd. unfold owns_stored in Hst. rewrite forallb_forall in Hst.
-        assert (Hother : forall w, w <> k -> own_data (mkS (store_sel D (v_wstore (decl k)) (own k) (wr k (pv k)) (raw s2)) (cache s2)) w = own_data s2 w).
+        assert (Hother : forall w, w <> k -> own_data (mkS (store_sel D (v_wstore (decl k)) (own k) (wr k p) (raw s2)) (cache s2)) w = own_data s2 w).
         { intros w Hne. unfold LazyLumps.own_data. cbn [raw]. apply map_ext_in. intros l Hl. apply store_sel_other.
           intros Hlk. destruct (Nat.lt_ge_cases w nviews) as [Hw|Hw].
           - exact (own_disj k w l Hk Hw (fun e => Hne (eq_sym e)) Hlk Hl).
@@ -289,33 +372,54 @@ Section Proofs.
         - intros v Hv. destruct (Nat.eq_dec v k) as [->|Hne].
           + split.
             * cbn [cache]. destruct (Hfr2 k (le_n k)) as [A _]. rewrite A. unfold s1, LazyLumps.set_cache, upd. cbn [cache]. now rewrite Nat.eqb_refl.
-            * right. split; [exact HRk|]. unfold LazyLumps.own_data at 1. cbn [raw].
-              apply store_sel_own; [exact Hnd | exact (wr_len k Hk) | exact Hst].
+            * right. split; [exact HRk|]. exists p. split; [exact Hpk|]. unfold LazyLumps.own_data at 1. cbn [raw].
+              apply store_sel_own; [exact Hnd | exact (wr_len k p Hk Hpk) | exact Hst].
           + destruct (Hb2 v ltac:(lia)) as [A B]. split; [exact A|]. rewrite (Hother v Hne). exact B.
         - intros v Hv Hvn. rewrite (Hother v ltac:(lia)). cbn [cache]. apply Hc2; lia.
         - intros l Hl. cbn [raw]. rewrite store_sel_other; [apply Hd2, Hl|].
           intros Hin. apply Hl. exists k. split; assumption.
       Qed.
 
-      Lemma save_steps_inv : forall m k s, k + m = nviews -> Inv k k s ->
-        Inv nviews nviews (fold_left save_step (seq k m) s).
+      Lemma save_steps_inv : forall m k acc, k + m = nviews -> (fst acc = true -> Inv k k (snd acc)) ->
+        let r := fold_left save_step (seq k m) acc in
+        (fst r = true -> Inv nviews nviews (snd r)) /\ (fst acc = true -> WG -> fst r = true).
       Proof.
-        induction m as [|m IH]; intros k s Hkm HI; cbn [seq fold_left].
-        - replace nviews with k by lia. exact HI.
-        - apply IH; [lia|]. apply save_step_inv; [lia | exact HI].
+        induction m as [|m IH]; intros k acc Hkm HI; cbn [seq fold_left].
+        - replace nviews with k by lia. split; [exact HI | auto].
+        - destruct (save_step_inv k acc ltac:(lia) HI) as [H1 H2]. cbv zeta in H1, H2.
+          destruct (IH (S k) (save_step acc k) ltac:(lia) H1) as [H3 H4]. cbv zeta in H3, H4.
+          split; [exact H3|]. intros Ht Hwg. apply H4; [apply H2; assumption | exact Hwg].
       Qed.
 
-      Lemma save_inv : forall s, Inv 0 0 s -> Inv nviews nviews (save s).
-      Proof. intros s HI. unfold LazyLumps.save. apply save_steps_inv; [lia | exact HI]. Qed.
+      Lemma save_inv : forall s, Inv 0 0 s ->
+        (fst (save s) = true -> Inv nviews nviews (snd (save s))) /\ (WG -> fst (save s) = true).
+      Proof.
+        intros s HI. unfold LazyLumps.save. rewrite save_todo_std.
+        destruct (save_steps_inv nviews 0 (true, s) ltac:(lia) (fun _ => HI)) as [H1 H2]. cbv zeta in H1, H2.
+        split; [exact H1 | intros Hwg; now apply H2].
+      Qed.
     End Run.
 
     (** ------------------------------------------------------------------ exported statements *)
 
+    (** The writer inverts the reader on whatever the reader makes of the file's lumps (property C11). *)
     Definition codec_ok (s0 : state) : Prop :=
-      forall v, v < nviews -> rd v (wr v (rd v (own_data s0 v))) = rd v (own_data s0 v).
+      forall v p, v < nviews -> rd v (own_data s0 v) = Some p -> rd v (wr v p) = Some p.
     Definition same_content (s s0 : state) : Prop :=
       (forall v, v < nviews -> rd v (own_data s v) = rd v (own_data s0 v)) /\
       (forall l, ~ owned l -> raw s l = raw s0 l).
+    (** The writer returns one datum per owned lump (on the values parsed from this file). *)
+    Definition wr_len_ok (s0 : state) : Prop :=
+      forall v p, v < nviews -> rd v (own_data s0 v) = Some p -> length (wr v p) = length (own v).
+    (** Whenever a view can be looked at, so can every view its writer looks at (otherwise save raises). *)
+    Definition writers_can_look (s0 : state) : Prop := WG s0.
+
+    Lemma writers_can_look_from_graph : wdeps_within_rdeps g = true -> forall s0, writers_can_look s0.
+    Proof.
+      intros H s0 v d Hv Hg Hd. unfold wdeps_within_rdeps in H. rewrite forallb_forall in H.
+      specialize (H v). rewrite in_seq in H. specialize (H ltac:(lia)). rewrite forallb_forall in H.
+      specialize (H d Hd). apply mem_In in H. inversion Hg as [? _ Hall]. exact (Hall d H).
+    Qed.
 
     Lemma closed_all : forall v d, v < nviews -> True -> In d (v_rdeps (decl v) ++ v_wdeps (decl v)) -> True.
     Proof. auto. Qed.
@@ -325,11 +429,47 @@ Section Proofs.
       intros s0 accs Hf. apply (run_inv s0 (fun _ => True) closed_all); [intros; exact I | now apply inv_fresh].
     Qed.
 
+    (** A look either succeeds and leaves the view cached, or fails, and then only because the reader of the
+        view or of a view later in the rebuild order rejects the data of the file: the fuel of [getf] is never
+        the reason. *)
     Theorem get_total : forall s0 accs v, fresh s0 -> v < nviews ->
-      exists p, cache (get v (run accs s0)) v = Some p.
+      let r := get v (run accs s0) in
+      (fst r = true -> exists p, cache (snd r) v = Some p /\ rd v (own_data s0 v) = Some p) /\
+      (fst r = false -> exists e, v <= e /\ e < nviews /\ rd e (own_data s0 e) = None) /\
+      ((forall e, v <= e -> e < nviews -> rd e (own_data s0 e) <> None) -> fst r = true).
     Proof.
-      intros s0 accs v Hf Hv. exists (pv s0 v).
-      apply (get_cached s0 (fun _ => True) closed_all); [now apply inv_run_all | exact I | exact Hv].
+      intros s0 accs v Hf Hv r. unfold LazyLumps.get in r.
+      destruct (get_spec s0 (fun _ => True) closed_all nviews 0 0 v (run accs s0) (le_n 0) (inv_run_all s0 accs Hf)
+                  ltac:(lia) I ltac:(lia)) as (_ & Hok & Hfail & Hgood & _).
+      fold r in Hok, Hfail, Hgood. split; [|split].
+      - intros Ht. destruct (Hok Hv Ht) as [Hc Hg]. apply good_pv in Hg. unfold pv in *.
+        destruct (rd v (own_data s0 v)) as [p|]; [exists p; auto | contradiction].
+      - intros Hff. exact (Hfail Hv Hff).
+      - intros Hall. destruct (fst r) eqn:E; [reflexivity|]. destruct (Hfail Hv eq_refl) as (e & H1 & H2 & H3).
+        exfalso. exact (Hall e H1 H2 H3).
+    Qed.
+
+    (** A look that raises changes nothing the property can observe: the view is still not cached, none of its
+        lumps was touched, every view still denotes what it denoted, lumps without a view are untouched. *)
+    Theorem failed_get_is_identity : forall s0 accs v, fresh s0 -> v < nviews ->
+      let s := run accs s0 in let r := get v s in fst r = false ->
+      cache (snd r) v = None /\ (forall l, In l (own v) -> raw (snd r) l = raw s l) /\
+      (forall w, w < nviews -> denote (snd r) w = denote s w) /\
+      (forall l, ~ owned l -> raw (snd r) l = raw s l).
+    Proof.
+      intros s0 accs v Hf Hv s r Hff. unfold LazyLumps.get in r.
+      assert (HIs : Inv s0 (fun _ => True) 0 0 s) by now apply inv_run_all.
+      destruct (get_spec s0 (fun _ => True) closed_all nviews 0 0 v s (le_n 0) HIs ltac:(lia) I ltac:(lia))
+        as (HI & Hok & _ & Hgood & Hfr).
+      fold r in HI, Hok, Hgood, Hfr.
+      destruct (Hfr v (or_intror (conj eq_refl Hff))) as [Hc Ho].
+      split; [|split; [|split]].
+      - rewrite Hc. destruct HIs as (_ & _ & HcI & _).
+        destruct (HcI v ltac:(lia) Hv) as [[Hn _]|(_ & Hg & _)]; [exact Hn|].
+        rewrite (Hgood Hv Hg) in Hff. discriminate.
+      - intros l Hl. exact (map_eq_pointwise _ _ _ Ho l Hl).
+      - intros w Hw. rewrite (inv_denote s0 _ _ w HI Hw). now rewrite (inv_denote s0 _ _ w HIs Hw).
+      - intros l Hl. destruct HI as (_ & _ & _ & Hd). destruct HIs as (_ & _ & _ & Hd'). now rewrite Hd, Hd'.
     Qed.
 
     Theorem view_look_preserves : forall s0 accs, fresh s0 ->
@@ -343,19 +483,24 @@ Section Proofs.
       - destruct HI as (_ & _ & _ & Hd). exact Hd.
     Qed.
 
-    (** The writer returns one datum per owned lump (on the values parsed from this file). *)
-    Definition wr_len_ok (s0 : state) : Prop :=
-      forall v, v < nviews -> length (wr v (rd v (own_data s0 v))) = length (own v).
-
-    Theorem save_lossless : forall s0 accs, fresh s0 -> wr_len_ok s0 -> codec_ok s0 ->
-      let s' := save (run accs s0) in fresh s' /\ same_content s' s0.
+    Lemma save_inv_all : forall s0 accs, fresh s0 -> wr_len_ok s0 ->
+      let r := save (run accs s0) in
+      (fst r = true -> Inv s0 (fun _ => True) nviews nviews (snd r)) /\ (writers_can_look s0 -> fst r = true).
     Proof.
-      intros s0 accs Hf Hlen Hcodec s'.
-      assert (HI : Inv s0 (fun _ => True) nviews nviews s').
-      { apply (save_inv s0 (fun _ => True) closed_all Hlen). now apply inv_run_all. }
-      destruct HI as (Ha & Hb & _ & Hd). split; [|split].
+      intros s0 accs Hf Hlen. apply (save_inv s0 (fun _ => True) closed_all Hlen). now apply inv_run_all.
+    Qed.
+
+    (** Main statement, over access sequences that may contain looks that raise. *)
+    Theorem save_lossless : forall s0 accs, fresh s0 -> wr_len_ok s0 -> codec_ok s0 ->
+      let r := save (run accs s0) in
+      (fst r = true -> fresh (snd r) /\ same_content (snd r) s0) /\ (writers_can_look s0 -> fst r = true).
+    Proof.
+      intros s0 accs Hf Hlen Hcodec r.
+      destruct (save_inv_all s0 accs Hf Hlen) as [H1 H2]. fold r in H1, H2. split; [|exact H2].
+      intros Ht. destruct (H1 Ht) as (Ha & Hb & _ & Hd). split; [|split].
       - intros v. destruct (Nat.lt_ge_cases v nviews) as [Hv|Hv]; [apply Hb, Hv | apply Ha, Hv].
-      - intros v Hv. destruct (Hb v Hv) as [_ [Ho|[_ Ho]]]; rewrite Ho; [reflexivity|]. apply Hcodec, Hv.
+      - intros v Hv. destruct (Hb v Hv) as [_ [Ho|(_ & p & Hp & Ho)]]; rewrite Ho; [reflexivity|].
+        unfold pv in Hp. rewrite Hp. apply Hcodec; assumption.
       - exact Hd.
     Qed.
 
@@ -363,98 +508,162 @@ Section Proofs.
     Theorem save_untouched_exact : forall s0 accs (R : nat -> Prop), fresh s0 -> wr_len_ok s0 ->
       (forall v d, v < nviews -> R v -> In d (v_rdeps (decl v) ++ v_wdeps (decl v)) -> R d) ->
       (forall v, In v accs -> R v) ->
-      let s' := save (run accs s0) in
-      forall v l, v < nviews -> ~ R v -> In l (own v) -> raw s' l = raw s0 l.
+      let r := save (run accs s0) in fst r = true ->
+      forall v l, v < nviews -> ~ R v -> In l (own v) -> raw (snd r) l = raw s0 l.
     Proof.
-      intros s0 accs R Hf Hlen Hcl Hacc s' v l Hv HnR Hl.
-      assert (HI : Inv s0 R nviews nviews s').
-      { apply (save_inv s0 R Hcl Hlen). apply (run_inv s0 R Hcl); [exact Hacc | now apply inv_fresh]. }
+      intros s0 accs R Hf Hlen Hcl Hacc r Ht v l Hv HnR Hl.
+      assert (HI : Inv s0 R nviews nviews (snd r)).
+      { apply (save_inv s0 R Hcl Hlen); [|exact Ht]. apply (run_inv s0 R Hcl); [exact Hacc | now apply inv_fresh]. }
       destruct HI as (_ & Hb & _ & _). destruct (Hb v Hv) as [_ [Ho|[HR _]]]; [|contradiction].
       exact (map_eq_pointwise _ _ _ Ho l Hl).
     Qed.
 
-    Definition run_cycles (cs : list (list nat)) (s : state) : state :=
-      fold_left (fun s accs => save (run accs s)) cs s.
+    (** Look/save cycles; a cycle whose save raised leaves the rest of the history unexamined (flag false). *)
+    Definition run_cycles (cs : list (list nat)) (s : state) : bool * state :=
+      fold_left (fun (acc : bool * state) accs => if fst acc then save (run accs (snd acc)) else acc) cs (true, s).
+
+    Lemma fresh_same_hyps : forall s s0, same_content s s0 -> wr_len_ok s0 -> codec_ok s0 -> wr_len_ok s /\ codec_ok s.
+    Proof.
+      intros s s0 (Hp & _) Hlen Hcodec. split.
+      - intros v p Hv Hr. rewrite (Hp v Hv) in Hr. exact (Hlen v p Hv Hr).
+      - intros v p Hv Hr. rewrite (Hp v Hv) in Hr. exact (Hcodec v p Hv Hr).
+    Qed.
 
     (** Repeated read / look / save cycles. *)
     Theorem cycles_lossless : forall cs s0, fresh s0 -> wr_len_ok s0 -> codec_ok s0 ->
-      let s' := run_cycles cs s0 in fresh s' /\ same_content s' s0.
+      let r := run_cycles cs s0 in fst r = true -> fresh (snd r) /\ same_content (snd r) s0.
     Proof.
-      intros cs s0 Hf Hlen Hcodec. cbv zeta.
-      assert (G : forall s, fresh s /\ same_content s s0 -> fresh (run_cycles cs s) /\ same_content (run_cycles cs s) s0).
-      { induction cs as [|accs r IH]; intros s Hs; cbn [run_cycles fold_left]; [exact Hs|].
-        apply IH. destruct Hs as (Hfs & Hp & Hu).
-        assert (Hcs : codec_ok s).
-        { intros v Hv. rewrite (Hp v Hv). apply Hcodec, Hv. }
-        assert (Hls : wr_len_ok s).
-        { intros v Hv. rewrite (Hp v Hv). apply Hlen, Hv. }
-        destruct (save_lossless s accs Hfs Hls Hcs) as (Hf' & Hp' & Hu').
-        split; [exact Hf'|]. split.
+      intros cs s0 Hf Hlen Hcodec. cbv zeta. unfold run_cycles.
+      assert (G : forall acc, (fst acc = true -> fresh (snd acc) /\ same_content (snd acc) s0) ->
+                  let r := fold_left (fun (acc : bool * state) accs => if fst acc then save (run accs (snd acc)) else acc) cs acc in
+                  fst r = true -> fresh (snd r) /\ same_content (snd r) s0).
+      { induction cs as [|accs r IH]; intros acc Hs; cbn [fold_left]; [exact Hs|].
+        apply IH. destruct acc as [b s]. cbn [fst snd] in *. destruct b; [|exact Hs].
+        destruct (Hs eq_refl) as (Hfs & Hsc). destruct (fresh_same_hyps s s0 Hsc Hlen Hcodec) as [Hls Hcs].
+        intros Ht. destruct (save_lossless s accs Hfs Hls Hcs) as [H _]. destruct (H Ht) as (Hf' & Hp' & Hu').
+        destruct Hsc as (Hp & Hu). split; [exact Hf'|]. split.
         - intros v Hv. rewrite (Hp' v Hv). apply Hp, Hv.
         - intros l Hl. rewrite (Hu' l Hl). apply Hu, Hl. }
-      apply G. split; [exact Hf|]. split; auto.
+      apply G. cbn [fst snd]. intros _. split; [exact Hf|]. split; auto.
     Qed.
 
     (** Saving again changes nothing: after a save nothing is cached, so the next save is the identity. *)
     Theorem save_idempotent : forall s0 accs, fresh s0 -> wr_len_ok s0 ->
-      let s' := save (run accs s0) in save s' = s'.
+      let r := save (run accs s0) in fst r = true -> save (snd r) = (true, snd r).
     Proof.
-      intros s0 accs Hf Hlen s'. apply save_fresh_id.
-      assert (HI : Inv s0 (fun _ => True) nviews nviews s').
-      { apply (save_inv s0 (fun _ => True) closed_all Hlen). now apply inv_run_all. }
-      destruct HI as (Ha & Hb & _ & _).
+      intros s0 accs Hf Hlen r Ht. apply save_fresh_id.
+      destruct (save_inv_all s0 accs Hf Hlen) as [H1 _]. fold r in H1.
+      destruct (H1 Ht) as (Ha & Hb & _ & _).
       intros v. destruct (Nat.lt_ge_cases v nviews) as [Hv|Hv]; [apply Hb, Hv | apply Ha, Hv].
     Qed.
   End Consistent.
 End Proofs.
 
 (** ---------------------------------------------------------------------- small closed instances *)
-(** Data are numbers (0 = b''), parsed values are the list of data; reader and writer are the identity. *)
-Definition ex_rd (v : nat) (ds : list nat) : list nat := ds.
+(** Data are numbers (0 = b''), parsed values are the list of data; the writer is the identity, the reader is
+    the identity except that it raises on a lump that starts with the datum 99 ("malformed"). *)
+Definition ex_rd (v : nat) (ds : list nat) : option (list nat) :=
+  match ds with 99 :: _ => None | _ => Some ds end.
 Definition ex_wr (v : nat) (p : list nat) : list nat := p.
 Definition ex_s0 : state nat (list nat) := mkS (fun l => S l) (fun _ => None).
-Notation ex_run g := (run nat (list nat) 0 ex_rd g).
-Notation ex_save g := (save nat (list nat) 0 ex_rd ex_wr g).
+(** The same file with lump 2 malformed. *)
+Definition ex_bad : state nat (list nat) := mkS (fun l => if Nat.eqb l 2 then 99 else S l) (fun _ => None).
+Notation ex_get g sh := (get nat (list nat) 0 ex_rd g sh).
+Notation ex_run g sh := (run nat (list nat) 0 ex_rd g sh).
+Notation ex_save g sh := (save nat (list nat) 0 ex_rd ex_wr g sh).
 
 (** The hypotheses of the theorems are satisfiable: a consistent graph with reader and writer dependencies. *)
 Definition g_ok : graph :=
   [ mkV [0] [1; 2] [2] [0]; mkV [1; 5] [2] [] [1; 5]; mkV [2; 3] [] [] [2; 3; 9] ].
 Example g_ok_consistent : order_consistent g_ok = true.
 Proof. vm_compute. reflexivity. Qed.
-Example ex_hyps : fresh nat (list nat) ex_s0 /\ wr_len_ok nat (list nat) ex_rd ex_wr g_ok ex_s0 /\ codec_ok nat (list nat) ex_rd ex_wr g_ok ex_s0.
+Example ex_hyps : fresh nat (list nat) ex_s0 /\ wr_len_ok nat (list nat) ex_rd ex_wr g_ok ex_s0 /\
+  codec_ok nat (list nat) ex_rd ex_wr g_ok ex_s0 /\ writers_can_look nat (list nat) ex_rd g_ok ex_s0.
 Proof.
-  split; [intros v; reflexivity|]. split; intros v Hv; unfold ex_wr, ex_rd, own_data; [apply map_length | reflexivity].
+  split; [intros v; reflexivity|].
+  assert (Hgood : forall v, v < 3 -> good nat (list nat) ex_rd g_ok ex_s0 v).
+  { assert (G2 : good nat (list nat) ex_rd g_ok ex_s0 2) by (constructor; [discriminate | intros d []]).
+    assert (G1 : good nat (list nat) ex_rd g_ok ex_s0 1).
+    { constructor; [discriminate|]. intros d [<-|[]]. exact G2. }
+    intros v Hv. destruct v as [|[|[|v]]]; [|exact G1 | exact G2 | lia].
+    constructor; [discriminate|]. intros d [<-|[<-|[]]]; assumption. }
+  split; [|split].
+  - intros v p Hv Hr. destruct v as [|[|[|v]]]; cbn in Hv; try lia; vm_compute in Hr; injection Hr as <-; reflexivity.
+  - intros v p Hv Hr. destruct v as [|[|[|v]]]; cbn in Hv; try lia; vm_compute in Hr; injection Hr as <-; reflexivity.
+  - intros v d Hv _ Hd. destruct v as [|[|[|v]]]; cbn in Hv; try lia; cbn in Hd.
+    + destruct Hd as [<-|[]]. apply Hgood. lia.
+    + destruct Hd.
+    + destruct Hd.
 Qed.
-Example g_ok_run : let s' := ex_save g_ok (ex_run g_ok [0] ex_s0) in
-  map (raw s') [0; 1; 2; 3; 4; 5] = [1; 2; 3; 4; 5; 6] /\ map (cache s') [0; 1; 2] = [None; None; None].
-Proof. vm_compute. split; reflexivity. Qed.
+Example g_ok_run : let r := ex_save g_ok std_shape (ex_run g_ok std_shape [0] ex_s0) in
+  fst r = true /\ map (raw (snd r)) [0; 1; 2; 3; 4; 5] = [1; 2; 3; 4; 5; 6] /\ map (cache (snd r)) [0; 1; 2] = [None; None; None].
+Proof. vm_compute. repeat split; reflexivity. Qed.
+(** ... and they do not exclude looks that raise: on [ex_bad] looking at view 0 looks at view 1 (cached, lumps 1 and 5
+    cleared), then at view 2 whose reader raises; view 0 is not cached, lumps 0, 2, 3 are untouched, and save
+    writes everything back. *)
+Definition g_part : graph := [ mkV [0] [1; 2] [] [0]; mkV [1; 5] [] [] [1; 5]; mkV [2; 3] [] [] [2; 3] ].
+Example g_part_failing_look :
+  let q := ex_get g_part std_shape 0 ex_bad in let r := ex_save g_part std_shape (snd q) in
+  order_consistent g_part = true /\
+  fst q = false /\ map (cache (snd q)) [0; 1; 2] = [None; Some [2; 6]; None] /\
+  map (raw (snd q)) [0; 1; 2; 3; 5] = [1; 0; 99; 4; 0] /\
+  fst r = true /\ map (raw (snd r)) [0; 1; 2; 3; 5] = [1; 2; 99; 4; 6] /\ map (cache (snd r)) [0; 1; 2] = [None; None; None].
+Proof. vm_compute. repeat split; reflexivity. Qed.
 
 (** Known defect #16 as a graph: a writer that looks at its own view (after it was popped). Looking at the
     view and saving empties the lump and leaves a stale cache entry. *)
 Definition g_self : graph := [ mkV [0] [] [0] [0] ].
 Example self_dependent_writer_refuted :
-  let s' := ex_save g_self (ex_run g_self [0] ex_s0) in
-  order_consistent g_self = false /\ raw ex_s0 0 = 1 /\ raw s' 0 = 0 /\ cache s' 0 = Some [0].
+  let r := ex_save g_self std_shape (ex_run g_self std_shape [0] ex_s0) in
+  order_consistent g_self = false /\ raw ex_s0 0 = 1 /\ fst r = true /\ raw (snd r) 0 = 0 /\ cache (snd r) 0 = Some [0].
 Proof. vm_compute. repeat split; reflexivity. Qed.
 
 (** A writer that looks at a view placed EARLIER in the rebuild order: that view is parsed after its turn,
     its lump stays cleared and the cache is not empty after save. *)
 Definition g_order : graph := [ mkV [0] [] [] [0]; mkV [1] [] [0] [1] ].
 Example rebuild_order_refuted :
-  let s' := ex_save g_order (ex_run g_order [1] ex_s0) in
-  order_consistent g_order = false /\ raw ex_s0 0 = 1 /\ raw s' 0 = 0 /\ cache s' 0 = Some [1].
+  let r := ex_save g_order std_shape (ex_run g_order std_shape [1] ex_s0) in
+  order_consistent g_order = false /\ raw ex_s0 0 = 1 /\ fst r = true /\ raw (snd r) 0 = 0 /\ cache (snd r) 0 = Some [1].
 Proof. vm_compute. repeat split; reflexivity. Qed.
 
 (** A lump that is cleared by the view but not stored by its writer is lost. *)
 Definition g_unstored : graph := [ mkV [0; 1] [] [] [0] ].
 Example cleared_lump_not_rewritten_refuted :
-  let s' := ex_save g_unstored (ex_run g_unstored [0] ex_s0) in
-  order_consistent g_unstored = false /\ raw ex_s0 1 = 2 /\ raw s' 1 = 0.
+  let r := ex_save g_unstored std_shape (ex_run g_unstored std_shape [0] ex_s0) in
+  order_consistent g_unstored = false /\ raw ex_s0 1 = 2 /\ fst r = true /\ raw (snd r) 1 = 0.
 Proof. vm_compute. repeat split; reflexivity. Qed.
 
 (** Two views sharing a lump: the second parse sees the cleared lump. *)
 Definition g_shared : graph := [ mkV [0; 7] [] [] [0; 7]; mkV [1; 7] [] [] [1; 7] ].
 Example shared_lump_refuted :
-  let s' := ex_save g_shared (ex_run g_shared [0; 1] ex_s0) in
-  order_consistent g_shared = false /\ raw ex_s0 7 = 8 /\ raw s' 7 = 0.
+  let r := ex_save g_shared std_shape (ex_run g_shared std_shape [0; 1] ex_s0) in
+  order_consistent g_shared = false /\ raw ex_s0 7 = 8 /\ fst r = true /\ raw (snd r) 7 = 0.
+Proof. vm_compute. repeat split; reflexivity. Qed.
+
+(** Each flag of [shape] is harmful on a perfectly consistent graph. *)
+(** __get__ empties the main lump before the reader has run: a look that raises loses the lump (nothing is
+    cached, so save has nothing to write back). *)
+Definition g_one : graph := [ mkV [2; 3] [] [] [2; 3] ].
+Example clear_before_parse_refuted :
+  let sh := mkShape true false false in
+  let q := ex_get g_one sh 0 ex_bad in let r := ex_save g_one sh (snd q) in
+  order_consistent g_one = true /\ shape_ok sh = false /\ raw ex_bad 2 = 99 /\
+  fst q = false /\ cache (snd q) 0 = None /\ fst r = true /\ raw (snd r) 2 = 0 /\ raw (snd r) 3 = 4.
+Proof. vm_compute. repeat split; reflexivity. Qed.
+(** The same for the extra lumps (here the reader sees the emptied extra lump, accepts it, and the lump's
+    content is lost although nothing raised: the parsed value is [99 is absent; 0]). *)
+Example clear_extra_before_parse_refuted :
+  let sh := mkShape false true false in
+  let r := ex_save g_one sh (ex_run g_one sh [0] ex_s0) in
+  order_consistent g_one = true /\ shape_ok sh = false /\ raw ex_s0 3 = 4 /\ fst r = true /\ raw (snd r) 3 = 0.
+Proof. vm_compute. repeat split; reflexivity. Qed.
+(** save walks a snapshot of the views that were cached when it started: a view first parsed by a writer during
+    the walk is never written, its lump stays empty and it stays in the cache. *)
+Definition g_wdep : graph := [ mkV [0] [] [1] [0]; mkV [1] [] [] [1] ].
+Example snapshot_save_refuted :
+  let sh := mkShape false false true in
+  let r := ex_save g_wdep sh (ex_run g_wdep sh [0] ex_s0) in
+  order_consistent g_wdep = true /\ shape_ok sh = false /\ raw ex_s0 1 = 2 /\
+  fst r = true /\ raw (snd r) 1 = 0 /\ cache (snd r) 1 = Some [2] /\
+  raw (snd (ex_save g_wdep std_shape (ex_run g_wdep std_shape [0] ex_s0))) 1 = 2.
 Proof. vm_compute. repeat split; reflexivity. Qed.
